@@ -176,7 +176,9 @@ fn py_session(run: &mut Run, idx: usize, rng: &mut Rng, w: &World) {
     for _ in 0..ncalls {
         let kind = rng.below(10);
         if kind < 5 || lists.is_empty() {
-            let text = if rng.chance(1, 8) { String::new() } else { gen_text(rng, w, 10) };
+            // one call in ten is rejected by the library (input longer than 49149 bytes): the binding must turn that
+            // into an exception and leave the tokenizer as it was (mode override restored)
+            let text = if rng.chance(1, 8) { String::new() } else if rng.chance(1, 10) { "あ".repeat(16400 + rng.below(50)) } else { gen_text(rng, w, 10) };
             let ov = if rng.chance(1, 3) { Some(mode_of(rng.below(3))) } else { None };
             let out = if !lists.is_empty() && rng.chance(1, 3) { Some(rng.below(lists.len())) } else { None };
             let keep = rng.chance(1, 4);
